@@ -858,6 +858,12 @@ func (c *Ctx) ParamsDoc(withPathVars bool, withBodies ...bool) *Doc {
 
 var SchemeKinds = []string{"bearer", "apikey-header", "apikey-query", "basic", "oauth2", "apikey-cookie", "oidc"}
 
+// SchemeOf is scheme for callers outside the package.
+func (c *Ctx) SchemeOf(kind, label string) *SecurityScheme { return c.scheme(kind, label) }
+
+// Comps returns (creating it) the components section.
+func (c *Ctx) Comps() *Components { return c.comps() }
+
 func (c *Ctx) scheme(kind, label string) *SecurityScheme {
 	switch kind {
 	case "bearer":
